@@ -342,7 +342,7 @@ def parse_repr(text: str, trunc: str = "(...)") -> dict:
         elif t.kind == "trunc":
             key = ("trunc", "", ())
         else:
-            key = (t.kind, t.head, tuple((k, intern(v)) for k, v in t.args))
+            key = (t.kind, t.head, tuple(sorted((k, intern(v)) for k, v in t.args)))
         if key not in table:
             nodes.append({"kind": key[0], "head": key[1],
                           "args": [{"key": k, "to": i} for k, i in key[2]]})
@@ -397,10 +397,51 @@ def _expected_root(S: dict, depth: int, omit: bool, table: dict) -> int:
                 key: tuple = ("trunc", "", ())
             else:
                 key = (nd["kind"], nd["head"],
-                       tuple((a["key"], memo[a["to"], min(d + nd["bump"], depth + 1)])
-                             for a in nd["args"] if not (omit and a["triv"])))
+                       tuple(sorted((a["key"], memo[a["to"], min(d + nd["bump"], depth + 1)])
+                                    for a in nd["args"] if not (omit and a["triv"]))))
             memo[k, d] = table.setdefault(key, len(table) + 1)
     return memo[S["root"], 0]
+
+
+def explain(S: dict, T: dict, depth: int, omit: bool = True) -> str:
+    """where the text leaves the unfolding (for the violation message)"""
+    def walk(k: int, d: int, t: int, path: str) -> str | None:
+        nd, tn = S["nodes"][k - 1], T["nodes"][t - 1]
+        if nd["trunc"] and d > depth:
+            return None if tn["kind"] == "trunc" else f"{path}: expected the truncation string"
+        if (nd["kind"], nd["head"]) != (tn["kind"], tn["head"]):
+            return (f"{path}: expected {nd['kind']} {nd['head'][:60]!r}, "
+                    f"found {tn['kind']} {tn['head'][:60]!r}")
+        ta = {}
+        for a in tn["args"]:
+            ta.setdefault(a["key"], []).append(a["to"])
+        used: dict[str, int] = {}
+        for a in nd["args"]:
+            cands = ta.get(a["key"], [])
+            i = used.get(a["key"], 0)
+            if a["key"] == "":          # a set: any element that fits
+                if not any(walk(a["to"], d + nd["bump"], c, path) is None for c in cands):
+                    return f"{path}: set element {S['nodes'][a['to'] - 1]['head'][:40]!r} missing"
+                continue
+            if i >= len(cands):
+                if a["triv"]:
+                    continue
+                return f"{path}: field {a['key']} is not shown"
+            used[a["key"]] = i + 1
+            r = walk(a["to"], min(d + nd["bump"], depth + 1), cands[i], f"{path}.{a['key']}")
+            if r is not None:
+                return r
+        extra = set(ta) - {a["key"] for a in nd["args"]}
+        if extra:
+            return f"{path}: unexpected field(s) {sorted(extra)}"
+        return None
+    import sys
+    lim = sys.getrecursionlimit()
+    sys.setrecursionlimit(max(lim, 20000))
+    try:
+        return walk(S["root"], 0, T["root"], "root") or "(no difference found by the walk)"
+    finally:
+        sys.setrecursionlimit(lim)
 
 
 def judge_repr(S: dict, T: dict, depth: int) -> tuple[str, str]:
@@ -411,7 +452,8 @@ def judge_repr(S: dict, T: dict, depth: int) -> tuple[str, str]:
     for n in T["nodes"]:
         if any(a["to"] > len(ids) for a in n["args"]):
             return "term_order", ""
-        key = (n["kind"], n["head"], tuple((a["key"], ids[a["to"] - 1]) for a in n["args"]))
+        key = (n["kind"], n["head"],
+               tuple(sorted((a["key"], ids[a["to"] - 1]) for a in n["args"])))
         ids.append(table.setdefault(key, len(table) + 1))
     troot = ids[T["root"] - 1]
 
@@ -422,7 +464,8 @@ def judge_repr(S: dict, T: dict, depth: int) -> tuple[str, str]:
     for d in (depth - 1, depth + 1):
         if d >= 0 and any(equal(d, o) for o in (False, True)):
             return "truncation_depth", f"the text is the unfolding to depth {d}, not {depth}"
-    return "repr_mismatch", "the text is not the unfolding of the expression"
+    return "repr_mismatch", ("the text is not the unfolding of the expression: "
+                             + explain(S, T, depth))
 
 
 # --------------------------------------------------------------------------
